@@ -245,7 +245,7 @@ static void seq_rec(unsigned depth, unsigned k, const vf_tok* toks, size_t nt) {
   S.n = n0;
   /* stream + a definite string head whose declared length cannot be supplied (2^32-1, 2^63-1, 2^63, 2^63+2, 2^64-16, 2^64-1) + 0, 1 or 4 payload bytes: the
    * client must be told to wait, with a `required` above what is buffered, whatever the fragmentation - never handed an event or a read beyond the buffer */
-  if (depth < seq_k || depth <= 1) {
+  if (depth <= 2) {
     static const uint8_t HUGE_[][9] = {{0x5a, 0xff, 0xff, 0xff, 0xff}, {0x7b, 0x7f, 0xff, 0xff, 0xff, 0xff, 0xff, 0xff, 0xff}, {0x5b, 0x80, 0, 0, 0, 0, 0, 0, 0},
                                        {0x7b, 0x80, 0, 0, 0, 0, 0, 0, 2}, {0x5b, 0xff, 0xff, 0xff, 0xff, 0xff, 0xff, 0xff, 0xf0}, {0x7b, 0xff, 0xff, 0xff, 0xff, 0xff, 0xff, 0xff, 0xff}};
     static const unsigned PAY[] = {0, 1, 4};
@@ -257,7 +257,7 @@ static void seq_rec(unsigned depth, unsigned k, const vf_tok* toks, size_t nt) {
         S.n = n0 + hl + PAY[pi];
         vf_cnt(K_HUGE_TAILS, 1);
         emit_stream(true);
-        if (depth <= brute_k && S.n <= brute_n) brute_force();
+        if (depth <= 1 && S.n <= brute_n) brute_force();
       }
     S.n = n0;
   }
@@ -343,7 +343,7 @@ static void replay(const char* tag, const uint8_t* d, size_t len) {
 struct vf_check vf_the_check = {
     .property = "C09",
     .level = "model_checking",
-    .rule = "streams = every sequence of <= k decodable heads of Sigma, each also followed by one of 3 reserved bytes and truncated at every offset inside its last head, and (sequences shorter than k) followed by one of 6 string heads of unsatisfiable declared length (2^32-1 .. 2^64-1, both sides of 2^63) with 0, 1 or 4 payload bytes, "
+    .rule = "streams = every sequence of <= k decodable heads of Sigma, each also followed by one of 3 reserved bytes and truncated at every offset inside its last head, and (sequences of <= 2 heads) followed by one of 6 string heads of unsatisfiable declared length (2^32-1 .. 2^64-1, both sides of 2^63) with 0, 1 or 4 payload bytes, "
             "plus 24 long streams (payloads of 23/24/255/256/300 bytes). For each stream the client's state graph (consumed, buffered, outstanding required) is searched to "
             "fixpoint: evaluations = states visited, transitions = fragment arrivals (every size) + client runs; the real decoder is called once per reachable (consumed, buffered) "
             "pair and judged against the reference tokenisation; traces_validated_against_impl = real decoder calls. Cross-check: the unmemoised client loop over all 2^(n-1) "
